@@ -1080,7 +1080,7 @@ func resultMapUpdates(c *core.Ctx, f, conv *core.Func) (ssa.Value, []*ssa.MapUpd
 
 func isConstInt(v ssa.Value, want int64) bool {
 	k, ok := v.(*ssa.Const)
-	return ok && k.Value != nil && k.Int64() == want
+	return ok && k.Value != nil && k.Value.Kind() == constant.Int && k.Int64() == want
 }
 
 // R12: ring-size guards in cleanupNewRing and the keep/drop policy in addPointsAndSnap.
@@ -1260,7 +1260,7 @@ func r12RingSizeGuards(c *core.Ctx) {
 	c.Check(R, "points-and-lines-only-when-kept/"+aps.Name, call.Pos(), keepOK && napp == 1, "collapsed parts are appended (to the level's own list) only under config.KeepPointsAndLines", "points and lines are appended regardless of the keep-points-and-lines option (or not at all)")
 	// points and lines come after the polygons: once a collapsed part has been appended to a level's list in the
 	// result map, no path leads to a store of that level's polygons (which would overwrite it)
-	if conv := c.P.Funcs["geomhelp.FloatPolygonsToGeomPolygonsForAllKeys"]; conv != nil {
+	if conv := c.P.Lookup("geomhelp.FloatPolygonsToGeomPolygonsForAllKeys"); conv != nil {
 		res, updates, flow := resultMapUpdates(c, aps, conv)
 		var plSites, polySites []ssa.Instruction
 		why := ""
@@ -1514,6 +1514,16 @@ func closingVertexDropped(p *core.Prog, fn *ssa.Function, in ssa.Value, out ssa.
 	return ""
 }
 
+// callTakes: v is one of the call's arguments (receiver included).
+func callTakes(call *ssa.Call, v ssa.Value) bool {
+	for _, a := range call.Call.Args {
+		if a == v {
+			return true
+		}
+	}
+	return false
+}
+
 // R13: winding normalisation first, reversal last.
 func r13WindingOrder(c *core.Ctx) {
 	const R = "R13"
@@ -1531,7 +1541,7 @@ func r13WindingOrder(c *core.Ctx) {
 		return
 	}
 	// order and value identity: reverse(x) where x = matchInners(...) result; stored value is x
-	okOrder := core.Dominates(dd[0], mi[0]) && core.Dominates(mi[0], rv[0]) && rv[0].Call.Args[0] == ssa.Value(mi[0])
+	okOrder := core.Dominates(dd[0], mi[0]) && core.Dominates(mi[0], rv[0]) && callTakes(rv[0], mi[0])
 	stored := false
 	for _, r := range *mi[0].Referrers() {
 		if mu, ok := r.(*ssa.MapUpdate); ok && mu.Value == ssa.Value(mi[0]) {
@@ -1580,7 +1590,8 @@ func r13WindingOrder(c *core.Ctx) {
 			if poly != nil {
 				param, i = elemOf(poly)
 			}
-			if param != ssa.Value(rfn.Params[0]) || i == nil || j == nil {
+			_, isParam := param.(*ssa.Parameter) // the polygons, wherever they stand in the parameter list
+			if !isParam || i == nil || j == nil {
 				revWhy = "the reversed value is not polygons[i][j] for loop counters i, j"
 			} else {
 				inner, outer := sliceLoopOf(j, poly), sliceLoopOf(i, param)
@@ -1967,6 +1978,9 @@ func r14OptionReads(c *core.Ctx) {
 		})
 	}
 	for field, h := range home {
+		if hf := c.P.Lookup(h); hf != nil {
+			h = hf.Name // the same function, should it have become a method (or the reverse)
+		}
 		g := got[field]
 		sortStrings(g)
 		bad := ""
@@ -1980,7 +1994,6 @@ func r14OptionReads(c *core.Ctx) {
 	}
 	c.Floor(R, 3)
 }
-
 
 // r06RoutedPointsKept: cleanupNewVertices drops the last routed point of a segment only when there is more than one
 // (the next segment starts with it), and the first one only when it equals the point added last.  A segment that
@@ -2080,23 +2093,12 @@ func r06RoutedPointsKept(c *core.Ctx) {
 	c.Check(R, construct, first.Pos(), okHigh && okFirst, "in[:len-min(len-1,1)], then the first point only if it repeats the last one added", "cleanupNewVertices can return nothing for a segment that was routed: "+why)
 }
 
-
-// r13SplitClassification: the loop that sorts the completed rings of a split into outer rings, inner rings and
-// points-and-lines, as a decision table over (ring has fewer than 3 vertices, the ring was a shell, the orientation
-// predicate asked for counter-clockwise, the predicate asked for clockwise): short -> points and lines; a shell's
-// piece is an outer ring iff it is counter-clockwise, a hole's piece an inner ring iff it is clockwise.  Lives in
-// splitRing or in a helper of package snap it calls; which accumulator is which is taken from the names of the
-// results (outerRings, innerRings, pointsAndLines), as go/ssa keeps them on the loop's phis.
-func r13SplitClassification(c *core.Ctx) {
-	const R = "R13"
-	sr := c.P.Funcs["snap.splitRing"]
-	if sr == nil || sr.SSA == nil {
-		return
-	}
-	construct := "split-pieces-classified-by-orientation/snap.splitRing"
+// splitClassificationLoop finds the loop that sorts the completed rings of a split (in splitRing or a helper of
+// package snap it calls) and its three accumulators, named after the results as go/ssa keeps them on the phis.
+func splitClassificationLoop(srFn *ssa.Function) (*ssa.Function, *ssa.BasicBlock, map[string]*ssa.Phi, string) {
 	// candidate functions: splitRing and its static callees in package snap
-	cands := []*ssa.Function{sr.SSA}
-	for _, b := range sr.SSA.Blocks {
+	cands := []*ssa.Function{srFn}
+	for _, b := range srFn.Blocks {
 		for _, in := range b.Instrs {
 			if call, ok := in.(*ssa.Call); ok {
 				if g := call.Call.StaticCallee(); g != nil && len(g.Blocks) > 0 && core.ShortPkg(core.FuncPkgPath(g)) == "snap" {
@@ -2140,8 +2142,7 @@ func r13SplitClassification(c *core.Ctx) {
 		}
 	}
 	if header == nil {
-		c.Unknown(R, construct, sr.Decl.Pos(), "no loop that classifies the completed rings with windingOrderIsCorrect found in splitRing or the helpers it calls")
-		return
+		return nil, nil, nil, "no loop that classifies the completed rings with windingOrderIsCorrect found in splitRing or the helpers it calls"
 	}
 	acc := map[string]*ssa.Phi{}
 	for _, in := range header.Instrs {
@@ -2153,7 +2154,27 @@ func r13SplitClassification(c *core.Ctx) {
 		}
 	}
 	if len(acc) != 3 {
-		c.Unknown(R, construct, sr.Decl.Pos(), "the three accumulators outerRings / innerRings / pointsAndLines are not recognisable in the classification loop (results renamed?)")
+		return nil, nil, nil, "the three accumulators outerRings / innerRings / pointsAndLines are not recognisable in the classification loop (results renamed?)"
+	}
+	return fn, header, acc, ""
+}
+
+// r13SplitClassification: the loop that sorts the completed rings of a split into outer rings, inner rings and
+// points-and-lines, as a decision table over (ring has fewer than 3 vertices, the ring was a shell, the orientation
+// predicate asked for counter-clockwise, the predicate asked for clockwise): short -> points and lines; a shell's
+// piece is an outer ring iff it is counter-clockwise, a hole's piece an inner ring iff it is clockwise.  Lives in
+// splitRing or in a helper of package snap it calls; which accumulator is which is taken from the names of the
+// results (outerRings, innerRings, pointsAndLines), as go/ssa keeps them on the loop's phis.
+func r13SplitClassification(c *core.Ctx) {
+	const R = "R13"
+	sr := c.P.Lookup("snap.splitRing")
+	if sr == nil || sr.SSA == nil {
+		return
+	}
+	construct := "split-pieces-classified-by-orientation/snap.splitRing"
+	fn, header, acc, why := splitClassificationLoop(sr.SSA)
+	if why != "" {
+		c.Unknown(R, construct, sr.Decl.Pos(), why)
 		return
 	}
 	var isOuter ssa.Value
